@@ -340,6 +340,17 @@ func (g *Gen) Target() *GConf {
 		if g.Kind == "asa" && g.Rng.Intn(4) == 0 {
 			c.Routes = append(c.Routes, fmt.Sprintf("ipv6 route %s 1000:%x::/64 1000::%x", c.Intfs[0], g.Rng.Intn(200), 1+g.Rng.Intn(200)))
 		}
+		if g.Kind == "ios" && !g.Small && g.Rng.Intn(3) == 0 {
+			// Routes of a VRF that Netspoc manages.
+			for i := 1 + g.Rng.Intn(3); i > 0; i-- {
+				a, _ := g.netAddr()
+				if seen["vrf "+a] {
+					continue
+				}
+				seen["vrf "+a] = true
+				c.Routes = append(c.Routes, fmt.Sprintf("ip route vrf V1 %s 255.255.255.0 10.9.%d.%d", a, g.Rng.Intn(3), 1+g.Rng.Intn(200)))
+			}
+		}
 	}
 	g.pruneGroups(c)
 	if g.Kind == "asa" && !g.Small && g.WithVPN && g.Rng.Intn(2) == 0 {
